@@ -31,8 +31,8 @@ package boltz
 
 // ---- fk index: the target's back-reference set ----
 // getIndexBucket: a missing target is a not-found error and nothing is written (proved); for an existing target the
-// result is the target's back-reference bucket, and no other back-reference bucket changes (assumed summary of
-// GetOrCreatePath below the target's entity bucket)
+// result is the target's back-reference bucket (assumed: a stable name per target) and no entry of any set is added
+// or removed by creating the path (proved from GetOrCreatePath)
 //@ func (*fkIndex).getIndexBucket
 //@   props C04
 //@   nosafety
@@ -40,8 +40,7 @@ package boltz
 //@   ensures[a-bucket-or-an-error] result != nil && result.ErrorHolderImpl != nil
 //@   ensures[missing-target-is-not-found] !entPresent(symStoreOf(index.fkSymbol), str(fkId)) ==> result.Err != nil && dbSame()
 //@   censures[the-target's-back-reference-bucket] entPresent(symStoreOf(index.fkSymbol), str(fkId)) && result.Err == nil ==> result.Bucket != nil && ref(result.Bucket) == fkB(index, tx, str(fkId))
-//@   censures[other-back-reference-sets-kept] forallStr(k, k != str(fkId) ==> bktHas[fkB(index, tx, k)] == old(bktHas[fkB(index, tx, k)]) && bktSub[fkB(index, tx, k)] == old(bktSub[fkB(index, tx, k)]), fkB(index, tx, k))
-//@   censures[existing-entries-kept] forallStr(s, old(sel(bktHas[fkB(index, tx, str(fkId))], prepend(TypeString, s))) == sel(bktHas[fkB(index, tx, str(fkId))], prepend(TypeString, s)) && old(sel(bktSub[fkB(index, tx, str(fkId))], prepend(TypeString, s))) == sel(bktSub[fkB(index, tx, str(fkId))], prepend(TypeString, s)))
+//@   ensures[no-entry-of-any-set-is-added-or-removed] plainSame()
 //@   censures[distinct-targets-distinct-buckets] forallStr(k, k != str(fkId) ==> fkB(index, tx, k) != fkB(index, tx, str(fkId)), fkB(index, tx, k))
 //@ func (*fkIndex).ProcessBeforeUpdate
 //@   props C04
